@@ -5,7 +5,7 @@
 (* multi-action infoset at all or one 2-action infoset (and the same with  *)
 (* the players exchanged, so that either player may have fewer, more or no *)
 (* infosets; one infoset also against profiles that differ from (1/2, 1/2) *)
-(* by 2.5e-4 and 2.5e-7), and exponents                                    *)
+(* by 2.5e-4, 2.5e-7, 1.25e-10), exponents                                    *)
 (* p in {1/2, 1, 3/2, 2, 3, 10} plus the non-positive 0 and -1.  For each  *)
 (* pair it states the facts the property demands of distance(s, t, p)      *)
 (* (which players' strategies coincide, whether the call must panic) and   *)
@@ -30,7 +30,7 @@ vars == <<a1, b1, a2, b2, two, c1, c2, p, swap, done>>
 
 \* profiles that differ by little: positivity must not depend on the size of the difference (|x-y|^p is far above
 \* the smallest positive double for these: at most 1e-66)
-Near == {<<1000, 1001>>, <<1000000, 1000001>>}
+Near == {<<1000, 1001>>, <<1000000, 1000001>>, <<1000000000, 1000000001>>}
 Init == /\ a1 \in Reduced(2) /\ a2 \in Reduced(2) \cup Near
         /\ b1 \in Reduced(3) /\ b2 \in {<<1, 0, 0>>, <<0, 1, 1>>, <<1, 1, 2>>, <<0, 0, 1>>}
         /\ two \in BOOLEAN
